@@ -116,6 +116,13 @@ def build_cells(tier, backend):
         cells.append((f"agg:CappedSum:{ek}", f"{seq}.Aggregate(0, lambda acc, v: (acc if acc < 1000 else 1000) + v)", "ev", ("any", None)))
         cells.append((f"agg:FloorSum:{ek}", f"{seq}.Aggregate(0, lambda acc, v: (acc if acc > 0 else 0) + v)", "ev", ("any", None)))
         cells.append((f"agg:HandMax:{ek}", f"{seq}.Aggregate(0, lambda acc, v: acc if acc > v else v)", "ev", ("any", None)))
+        # the initial value is itself a computed variable (a count, another aggregate's result, an int method): the
+        # accumulator must still become as wide as what is folded in
+        cnt = f"e.{coll}('A').Count()"
+        cells.append((f"agg:CountSeed:{ek}", f"{seq}.Aggregate({cnt}, lambda acc, v: acc + v)", "ev", ("any", None)))
+        cells.append((f"agg:SumSeed:{ek}", f"{seq}.Aggregate(e.{coll}('A').Select(lambda j: j.nTrk()).Sum(), lambda acc, v: acc + v)", "ev", ("any", None)))
+        cells.append((f"agg:CountSeedMul:{ek}", f"{seq}.Aggregate({cnt}, lambda acc, v: acc * v + 1)", "ev", ("any", None)))
+        cells.append((f"agg:IntExprSeed:{ek}", f"{seq}.Aggregate({cnt} + 1, lambda acc, v: acc + v)", "ev", ("any", None)))
         cells.append((f"agg:CondAdd:{ek}", f"{seq}.Aggregate(1, lambda acc, v: acc + (v if v > 1 else 1))", "ev", ("any", None)))
     if tier != "quick":
         ops2 = ["+", "-", "*", "/", "%", "**"]
